@@ -1743,6 +1743,8 @@ def fold_loop(I, st, fr, e, seq, pat, body, roots, run_body, ind=None, skip_boun
         elem = seq_elem(I, head, seq, None)
         n_facts = len(head.lin.facts)
         outs = run_body(head.copy(), elem)
+        # `continue` ends the iteration like falling off the end of the body
+        outs = [(s_, v_, None if c_ == "continue" else c_) for (s_, v_, c_) in outs]
     except (NotImplementedError, TypeError, KeyError, AttributeError):
         return abort()
     except Exception as ex:
@@ -1844,6 +1846,23 @@ def fold_loop(I, st, fr, e, seq, pat, body, roots, run_body, ind=None, skip_boun
         cond_unk = tuple(s2.unk[n_unk:])
         if not cond_facts and not cond_unk:
             return abort()
+        if not cond_facts and len(cond_unk) == 1 and cond_unk[0][1] and cond_unk[0][0][0] == "is_some":
+            # `if let Some(k) = m[x] { out.push(f(k)) }`: the loop form of filter_map
+            okey = cond_unk[0][0][1]
+            final = {}
+            for (r, path), k in c.items():
+                if k[0] == "same":
+                    continue
+                P, t0 = seq_mark[(r, path)]
+                if len(k[1]) != 1 or k[1][0][0] != "fill" or not res.eq(as_poly(k[1][0][2]), 1):
+                    return abort()
+                pv = as_poly(k[1][0][1])
+                if mentions(pv, all_marks) or mentions(pv, nat_atoms) or not mentions(pv, {("somev", okey)}):
+                    return abort()
+                t = ("filtermap", S, (freeze(VNat(pv)),))
+                res.add_ge(t_len(S) - t_len(t))
+                final[(r, path)] = VSeq(mk_concat([t0, t]))
+            return finish(final)
         cond = ("true",)
         for (_, k, p) in cond_facts:
             cond = f_and(cond, ("cmp", k, p))
